@@ -5,5 +5,7 @@ H("c10_context", "C10", "seq", ["harness/c10_context.cc"], sdk=[], cxxflags=["-f
        "already detached, foreign) / token destruction / Scope push and pop (any order) against a vector-of-identities model, GetCurrent and GetCurrentSpan compared "
        "after every operation, deep enough to cross the first stack reallocations; (c) sequential two-thread isolation; (d) deep stacks by shaped enumeration: "
        "attach N frames (N up to 65 quick / 128 thorough; distinct contexts, re-attached contexts, trace::Scope) and unwind newest-first, with one token out of "
-       "order, or pop to a depth / re-grow / unwind, model compared after every single attach and detach",
+       "order, or pop to a depth / re-grow / unwind, model compared after every single attach and detach; (e) special frames (Scope over a null span, Tracer::WithActiveSpan, "
+       "a non-span value under the active-span key) over a reduced alphabet; (f) a custom RuntimeContextStorage (deliberately not a stack) installed with SetRuntimeContextStorage: "
+       "RuntimeContext / Token / Scope / GetCurrentSpan act through it and only through it; RuntimeContext::SetValue(key,value) on the current context after every operation",
   design_ref="5/C10")
